@@ -14,12 +14,14 @@ import (
 )
 
 type bigEnv struct {
-	phiBusy map[*ssa.Phi]bool
-	f       *ssa.Function
-	names   map[ssa.Value]string // leaves (params, fields…)
-	cenv    *canonEnv
-	depth   int
-	globs   map[string]*X // known constant big globals ("pkgpath.one" -> K(1))
+	phiBusy  map[*ssa.Phi]bool
+	f        *ssa.Function
+	names    map[ssa.Value]string // leaves (params, fields…)
+	cenv     *canonEnv
+	depth    int
+	lenDepth int
+	lenConst map[string]int64 // byte-string lengths fixed by an assumption ("len(IV)" -> 12)
+	globs    map[string]*X    // known constant big globals ("pkgpath.one" -> K(1))
 }
 
 func newBigEnv(f *ssa.Function, names map[ssa.Value]string) *bigEnv {
